@@ -129,21 +129,39 @@ def c08(ctx):
         dict(crop="MaizeGDD", station="champion_climate.txt", irr_method=0, n_seasons=2, off_season=False, start_mode="at", gw=False),
         dict(crop="PaddyRice", station="hyderabad_climate.txt", irr_method=5, fm="bunds", soil="Paddy", soil_kind="builtin", n_seasons=2, off_season=False, start_mode="at", gw=False),
     ]
+    # thermal-time crops flowering in the hot season (pollination heat stress is the only consumer of
+    # the raw daily maximum temperature): explicit scenarios, not drawn
+    explicit = [
+        dict(id=8900, start="2000/03/01", end="2002/12/30", weather={"kind": "file", "name": "hyderabad_climate.txt"},
+             soil={"type": "ClayLoam"}, crop={"name": "PaddyRiceGDD", "planting": "03/01", "overrides": {}},
+             iwc=FC, irr={"method": 1, "SMT": [80.0] * 4}, off_season=False),
+        dict(id=8901, start="2001/04/10", end="2003/12/30", weather={"kind": "synth", "seed": 4242, "regime": "hot",
+                                                                     "start": "2001-04-01", "end": "2004-01-10", "south": False},
+             soil={"type": "SandyLoam"}, crop={"name": "MaizeGDD", "planting": "04/10", "overrides": {}},
+             iwc=FC, irr={"method": 1, "SMT": [70.0] * 4}, off_season=False),
+    ]
+    queue = list(explicit)
     while evals < n and tried < 6 * n:
         tried += 1
         m = methods[tried % 6]
-        if tried <= len(forced):
-            st = forced[tried - 1]
+        if queue:
+            sc = queue.pop(0)
+            m = (sc.get("irr") or {}).get("method", 0)
+            st = None
+        elif forced:
+            st = forced.pop(0)
             m = st["irr_method"]
+            st["_forced"] = True
         else:
             st = dict(n_seasons=int(rng.choice([2, 3])), off_season=False, irr_method=m,
                       start_mode=str(rng.choice(["at", "before"])))
             if rng.random() < 0.5:
                 st["crop"] = str(rng.choice(["Wheat", "Maize", "Barley", "Tomato", "Quinoa", "Sorghum", "WheatGDD", "MaizeGDD"]))
-        sc = S.gen_scenario(rng, 8000 + tried, st)
-        if tried <= len(forced) and m == 2:
+        if st is not None:
+            sc = S.gen_scenario(rng, 8000 + tried, st)
+        if st is not None and st.get("_forced") and m == 2:
             sc["irr"] = {"method": 2, "IrrInterval": 7, "MaxIrr": 100.0}
-        if tried <= len(forced) and m == 4:
+        if st is not None and st.get("_forced") and m == 4:
             sc["irr"] = {"method": 4, "NetIrrSMT": 70.0}
         multi = run_full(sc)
         if multi.error or not multi.summary or len(multi.summary) < 2:
@@ -383,6 +401,32 @@ def c11(ctx):
     rng = np.random.default_rng(seed + 111)
     for i, st in enumerate(forced):
         scs.insert(0, S.gen_scenario(rng, 11000 + i, st))
+    # configurations in which initialisation feeds values it wrote on an earlier use back into itself
+    explicit = [
+        # explicit latest harvest date (the calendar is then computed once, not twice, per initialisation),
+        # stage-dependent thresholds (growth-stage boundaries come from the crop calendar)
+        dict(id=11900, start="1990/05/01", end="1992/12/30", weather={"kind": "file", "name": "champion_climate.txt"},
+             soil={"type": "ClayLoam"}, crop={"name": "Maize", "planting": "05/01", "harvest": "10/30", "overrides": {}},
+             irr={"method": 1, "SMT": [30.0, 70.0, 50.0, 20.0]}, off_season=False),
+        dict(id=11901, start="1985/10/15", end="1987/09/30", weather={"kind": "file", "name": "tunis_climate.txt"},
+             soil={"type": "SandyLoam"}, crop={"name": "Wheat", "planting": "10/15", "harvest": "06/20", "overrides": {}},
+             irr={"method": 1, "SMT": [80.0, 40.0, 60.0, 30.0]}, off_season=True),
+        # yearly CO2 series above the reference, several seasons, start on the planting date, shared CO2 object
+        dict(id=11902, start="2003/05/01", end="2007/12/30", weather={"kind": "file", "name": "champion_climate.txt"},
+             soil={"type": "SandyLoam"}, crop={"name": "Maize", "planting": "05/01", "overrides": {}},
+             irr={"method": 0}, co2={"constant": False}, off_season=False),
+        dict(id=11903, start="2004/11/01", end="2008/08/30", weather={"kind": "file", "name": "cordoba_climate.txt"},
+             soil={"type": "Loam"}, crop={"name": "Wheat", "planting": "11/01", "overrides": {}},
+             irr={"method": 2, "IrrInterval": 10}, co2={"constant": True, "current": 0.0}, off_season=True),
+        # calendar-day crop converted to thermal time at initialisation
+        dict(id=11904, start="1990/05/01", end="1991/12/30", weather={"kind": "file", "name": "champion_climate.txt"},
+             soil={"type": "SandyLoam"}, crop={"name": "Maize", "planting": "05/01", "overrides": {"SwitchGDD": 1}},
+             irr={"method": 0}, off_season=False),
+        dict(id=11905, start="1990/05/01", end="1991/12/30", weather={"kind": "file", "name": "champion_climate.txt"},
+             soil={"type": "SandyLoam"}, crop={"name": "Maize", "planting": "05/01", "harvest": "10/30", "overrides": {"SwitchGDD": 1}},
+             irr={"method": 0}, off_season=False),
+    ]
+    scs = explicit + scs
     for sc in scs:
         objs = S.build_objects(sc)
         r1 = run_full(objects=objs)
@@ -390,24 +434,27 @@ def c11(ctx):
             continue
         evals += 1
         nontriv += 1
+        # violations on SwitchGDD=1 crops get their own key (recorded finding: the conversion of the
+        # calendar to thermal time is not idempotent on the user's Crop object)
+        sfx = "-switchgdd" if sc["crop"].get("overrides", {}).get("SwitchGDD") == 1 else ""
         # (a) re-run the same model object (default initialize_model=True)
         r2 = run_full(model=r1.model)
         if r2.error:
-            viols.append(V("C11", "rerun-raises-" + r2.error[0], sc, "re-running the same model object raises", error=r2.error,
+            viols.append(V("C11", "rerun-raises-" + r2.error[0] + sfx, sc, "re-running the same model object raises", error=r2.error,
                            irr_method=(sc.get("irr") or {}).get("method")))
         elif not tables_equal(r1, r2):
-            viols.append(V("C11", "rerun-differs", sc, "re-running the same model object gives different results", diff=first_diff(r1, r2)))
+            viols.append(V("C11", "rerun-differs" + sfx, sc, "re-running the same model object gives different results", diff=first_diff(r1, r2)))
         # (b) a new model from the same user objects
         r3 = run_full(objects=objs)
         if r3.error:
-            viols.append(V("C11", "rebuild-raises-" + r3.error[0], sc, "building a new model from the same objects raises", error=r3.error,
+            viols.append(V("C11", "rebuild-raises-" + r3.error[0] + sfx, sc, "building a new model from the same objects raises", error=r3.error,
                            irr_method=(sc.get("irr") or {}).get("method")))
         elif not tables_equal(r1, r3):
-            viols.append(V("C11", "rebuild-differs", sc, "a new model from the same objects gives different results", diff=first_diff(r1, r3)))
+            viols.append(V("C11", "rebuild-differs" + sfx, sc, "a new model from the same objects gives different results", diff=first_diff(r1, r3)))
         # (c) third use
         r4 = run_full(objects=objs)
         if not r4.error and not r3.error and not tables_equal(r3, r4):
-            viols.append(V("C11", "third-use-differs", sc, "third use of the same objects differs from the second", diff=first_diff(r3, r4)))
+            viols.append(V("C11", "third-use-differs" + sfx, sc, "third use of the same objects differs from the second", diff=first_diff(r3, r4)))
     return viols, dict(evaluations=evals, distinct_nontrivial=nontriv,
                        c11_samples=[dict(scen=s["id"], crop=s["crop"]["name"], irr=(s.get("irr") or {}).get("method")) for s in scs[:3]])
 
